@@ -84,6 +84,60 @@ class Sym:
         raise AnalysisError(f"statement outside the straight-line fragment: `{U(st)[:60]}`")
 
 
+def desugar_conditionals(stmts):
+    """x = E[.. (a if c else b) ..]  ->  if c: x = E[a] else: x = E[b]   and boolean locals (`flag = k < r`) are read through
+    in tests, so that conditional expressions and if statements give the same arms"""
+    import copy
+    flags = {}
+    for st in stmts:
+        if isinstance(st, ast.Assign) and len(st.targets) == 1 and isinstance(st.targets[0], ast.Name) and isinstance(st.value, (ast.Compare, ast.BoolOp)):
+            flags[st.targets[0].id] = st.value
+
+    def find_ifexp(e):
+        for x in ast.walk(e):
+            if isinstance(x, ast.IfExp):
+                return x
+        return None
+
+    def replace(e, old, new):
+        class R(ast.NodeTransformer):
+            def visit_IfExp(self, n):
+                if n is old:
+                    return new
+                self.generic_visit(n)
+                return n
+        return R().visit(e)
+
+    def thru(t):
+        return inline(t, flags)
+
+    def expand(st):
+        if isinstance(st, ast.Assign) and len(st.targets) == 1 and isinstance(st.targets[0], ast.Name):
+            if st.targets[0].id in flags and st.value is flags[st.targets[0].id]:
+                return []
+            ie = find_ifexp(st.value)
+            if ie is not None:
+                a = copy.deepcopy(st)
+                b = copy.deepcopy(st)
+                ia, ib = find_ifexp(a.value), find_ifexp(b.value)
+                a.value = replace(a.value, ia, ia.body) if a.value is not ia else ia.body
+                b.value = replace(b.value, ib, ib.orelse) if b.value is not ib else ib.orelse
+                node = ast.If(test=thru(copy.deepcopy(ie.test)), body=expand(a), orelse=expand(b), lineno=st.lineno, col_offset=0)
+                return [node]
+            return [st]
+        if isinstance(st, ast.If):
+            st = copy.copy(st)
+            st.test = thru(st.test)
+            st.body = [y for x in st.body for y in expand(x)]
+            st.orelse = [y for x in st.orelse for y in expand(x)]
+            return [st]
+        return [st]
+    out = []
+    for st in stmts:
+        out += expand(st)
+    return out
+
+
 def r1(ctx):
     f = ctx.fn(f"{DC}.get_lower_triangular_indices_chunk")
     n, k, C = f.params
@@ -94,17 +148,22 @@ def r1(ctx):
         if isinstance(st, ast.Assign) and isinstance(st.value, ast.Call) and U(st.value.func) == "lower_triangular_indices":
             cut = i
             break
-    arith = body[:cut]
+    arith = desugar_conditionals([st for st in body[:cut] if not isinstance(st, ast.Return)])
     rest = body[cut:]
     ret = returns(f.node)
     ctx.need(len(ret) == 1, f"{f.site()}: single return not found")
     isl = ret[0].value
     while isinstance(isl, ast.Call) and call_name(isl) == "list":
         isl = isl.args[0]
-    ctx.need(isinstance(isl, ast.Call) and call_name(isl) == "islice" and len(isl.args) == 2, f"{f.site()}: return is not list(islice(g, count))")
-    cons = [c for st in rest for c in calls(st) if U(c.func) == "consume"]
-    ctx.need(len(cons) == 1, f"{f.site()}: consume(g, start) not found")
-    start_e, count_e = cons[0].args[1], isl.args[1]
+    ctx.need(isinstance(isl, ast.Call) and call_name(isl) == "islice" and len(isl.args) in (2, 3), f"{f.site()}: return is not list(islice(g, count)) / list(islice(g, start, stop))")
+    if len(isl.args) == 3:
+        # islice(g, start, stop): skip `start` items, then take stop - start
+        start_e = isl.args[1]
+        count_e = ast.BinOp(left=isl.args[2], op=ast.Sub(), right=isl.args[1])
+    else:
+        cons = [c for st in rest for c in calls(st) if U(c.func) == "consume"]
+        ctx.need(len(cons) == 1, f"{f.site()}: consume(g, start) not found")
+        start_e, count_e = cons[0].args[1], isl.args[1]
     Nn = Norm(strict=False)
     q, r, Nn_idx = Poly.atom(("var", "q")), Poly.atom(("var", "r")), Poly.atom(("var", "N"))
 
@@ -170,6 +229,21 @@ def r1(ctx):
                     raise AnalysisError(f"{f.site()}: statement `{U(st)[:50]}` is outside the affine fragment")
             paths = new
         out = []
+        feasible = []
+        for c, e in paths:
+            seen = {}
+            ok_path = True
+            dedup = []
+            for cond, arm in c:
+                if cond in seen:
+                    if seen[cond] != arm:
+                        ok_path = False        # the same test taken both ways: not a path of the program
+                    continue
+                seen[cond] = arm
+                dedup.append((cond, arm))
+            if ok_path:
+                feasible.append((dedup, e))
+        paths = feasible
         for c, e in paths:
             env.clear()
             env.update(e)
@@ -236,6 +310,10 @@ def r2(ctx):
     isl = ret.args[0] if isinstance(ret, ast.Call) and call_name(ret) == "list" else ret
     ok = len(g) == 1 and len(cons) == 1 and U(cons[0].args[0]) == g[0] and isinstance(isl, ast.Call) and U(isl.args[0]) == g[0] \
         and cons[0].lineno < isl.lineno
+    if not ok and isinstance(isl, ast.Call) and call_name(isl) == "islice" and len(isl.args) == 3 and not cons:
+        # islice(enumeration, start, stop) on a fresh enumeration of the pairs over n
+        src = inline(isl.args[0], env)
+        ok = isinstance(src, ast.Call) and U(src.func) == "lower_triangular_indices" and [U(a) for a in src.args] == [n]
     ctx.check("R2", f"{f.site()}::slice-of-one-generator", ok, "consume(g, start) then islice(g, count) on the same generator over n",
               "the chunk is not a contiguous slice (skip start, take count) of one enumeration of the pairs")
     gen = ctx.fn(f"{DC}.lower_triangular_indices")
@@ -248,6 +326,17 @@ def r2(ctx):
         j = U(inner.target)
         ok = U(inner.iter) == f"range({i})" and len(inner.body) == 1 and isinstance(inner.body[0], ast.Expr) and isinstance(inner.body[0].value, ast.Yield) \
             and U(inner.body[0].value.value).replace(" ", "") in (f"({i},{j})", f"{i},{j}")
+    elif len(b) == 1 and isinstance(b[0], ast.For) and U(b[0].iter) == f"range({n})" and len(b[0].body) == 1 and isinstance(b[0].body[0], ast.Expr) \
+            and isinstance(b[0].body[0].value, ast.YieldFrom):
+        # for i in range(n): yield from <the pairs (i, 0) .. (i, i-1) in that order>
+        i = U(b[0].target)
+        src = b[0].body[0].value.value
+        t = U(src).replace(" ", "")
+        ok = t in (f"zip(repeat({i}),range({i}))", f"zip(itertools.repeat({i}),range({i}))", f"(({i},j)forjinrange({i}))", f"[({i},j)forjinrange({i})]",
+                   f"zip([{i}]*{i},range({i}))", f"(({i},j)forjinrange(0,{i}))")
+        if not ok and isinstance(src, (ast.GeneratorExp, ast.ListComp)) and len(src.generators) == 1 and not src.generators[0].ifs and U(src.generators[0].iter) == f"range({i})":
+            jv = U(src.generators[0].target)
+            ok = U(src.elt).replace(" ", "") == f"({i},{jv})"
     ctx.check("R2", f"{gen.site()}::enumeration", ok, "for i in range(n): for j in range(i): yield i, j  (each pair i > j once)",
               "the pair enumeration is not `for i in range(n): for j in range(i): yield i, j`")
     cs = ctx.fn(f"{DC}.consume")
